@@ -128,6 +128,7 @@ impl RefClient {
                 .env("TYPSTYLE_WIDTH", "7")
                 .env("NO_COLOR", "1")
                 .env("VSIM_ENVJUNK", "1")
+                .env("VSIM_NOTHREADS", "1")
                 .env("RUST_BACKTRACE", "full")
                 .current_dir("/");
             unsafe {
